@@ -373,6 +373,68 @@ class PositionalToKeyword(ast.NodeTransformer):
         return n
 
 
+class AnnotateAssignments(ast.NodeTransformer):
+    """x = e  ->  x: "object" = e   (single plain-name targets inside functions)"""
+
+    def __init__(self):
+        self.in_func = 0
+
+    def visit_FunctionDef(self, n):
+        self.in_func += 1
+        declared = {nm for x in ast.walk(n) if isinstance(x, (ast.Global, ast.Nonlocal)) for nm in x.names}
+        self.declared = getattr(self, "declared", set()) | declared
+        self.generic_visit(n)
+        self.in_func -= 1
+        return n
+
+    def visit_Assign(self, n):
+        if self.in_func and len(n.targets) == 1 and isinstance(n.targets[0], ast.Name) and n.targets[0].id not in getattr(self, "declared", set()):
+            return ast.AnnAssign(target=n.targets[0], annotation=ast.Constant(value="object"), value=n.value, simple=1)
+        return n
+
+
+class BoolIndexToLoc(ast.NodeTransformer):
+    """df[<boolean mask expression>] -> df.loc[<boolean mask expression>]  (loads only)"""
+
+    def visit_Subscript(self, n):
+        self.generic_visit(n)
+        if isinstance(n.ctx, ast.Load) and isinstance(n.value, ast.Name) and (n.value.id in AttrToSubscript.FRAMES or "df" in n.value.id or "kernels" in n.value.id):
+            sl = n.slice
+            is_mask = isinstance(sl, (ast.Compare, ast.BoolOp)) or (isinstance(sl, ast.BinOp) and isinstance(sl.op, (ast.BitAnd, ast.BitOr))) or \
+                (isinstance(sl, ast.UnaryOp) and isinstance(sl.op, ast.Invert)) or \
+                (isinstance(sl, ast.Call) and isinstance(sl.func, ast.Attribute) and sl.func.attr in ("eq", "ne", "gt", "ge", "lt", "le", "isin", "notna", "isna", "notnull", "isnull"))
+            if is_mask:
+                return ast.Subscript(value=ast.Attribute(value=n.value, attr="loc", ctx=ast.Load()), slice=sl, ctx=ast.Load())
+        return n
+
+
+class SwapIndependentAssignments(ast.NodeTransformer):
+    """two adjacent assignments `a = e1; b = e2` (plain names, call-free right sides, neither mentions the other's target) are swapped"""
+
+    def _swap(self, body):
+        out, i = list(body), 0
+        while i + 1 < len(out):
+            a, b = out[i], out[i + 1]
+            if all(isinstance(x, ast.Assign) and len(x.targets) == 1 and isinstance(x.targets[0], ast.Name) and not any(isinstance(y, (ast.Call, ast.NamedExpr, ast.Await, ast.Yield)) for y in ast.walk(x.value)) for x in (a, b)):
+                ta, tb = a.targets[0].id, b.targets[0].id
+                na = {y.id for y in ast.walk(a.value) if isinstance(y, ast.Name)}
+                nb = {y.id for y in ast.walk(b.value) if isinstance(y, ast.Name)}
+                if ta != tb and ta not in nb and tb not in na:
+                    out[i], out[i + 1] = b, a
+                    i += 2
+                    continue
+            i += 1
+        return out
+
+    def generic_visit(self, n):
+        super().generic_visit(n)
+        for fld in ("body", "orelse", "finalbody"):
+            v = getattr(n, fld, None)
+            if isinstance(v, list) and v and isinstance(v[0], ast.stmt):
+                setattr(n, fld, self._swap(v))
+        return n
+
+
 def t_unparse(src: str) -> str:
     return ast.unparse(ast.parse(src)) + "\n"
 
@@ -415,6 +477,9 @@ TRANSFORMS = {
     "elif -> else: <no-op>; if": _tx(ElifToNested),
     "rename lambda parameters": _tx(RenameInnerParams),
     "positional -> keyword arguments (hta-defined callees)": _tx(PositionalToKeyword),
+    "annotate local assignments (x: T = e)": _tx(AnnotateAssignments),
+    "df[mask] -> df.loc[mask]": _tx(BoolIndexToLoc),
+    "swap adjacent independent assignments": _tx(SwapIndependentAssignments),
 }
 
 
